@@ -160,44 +160,51 @@ CtxKinds == {"qualDecl", "class", "instance", "namespace"}
 Ctx == {PlainOf(k) : k \in CtxKinds}
 Inc2 == PlainOf("include")
 
-(* sequences of length n with the focus production at every position and    *)
-(* every choice of defect-free context productions at the others            *)
-WithFocus(f, n) ==
-  UNION {{[i \in 1..n |-> IF i = pos THEN f ELSE c[i]] : c \in [1..n -> Ctx]}
-         : pos \in 1..n}
-
 \* which focus productions may stand where
 MainOnly(f) == f.k = "include" /\ f.v = "inc2"
 IncOnly(f) == f.k = "include" /\ f.v = "mutual"
 
-(* Sessions(maxprod, kinds): every focus production of the given kinds      *)
-(* (every defect kind, every valid variant, every repository rejection)     *)
-(*  A  at every position of a main text of <= maxprod productions,          *)
-(*  B  inside an included file (alone, before/after another production;     *)
-(*     the include alone, before/after another production of the main text) *)
-(*  C  in the main text after an include that returned normally.            *)
-(* Sessions with a repository rejection are kept short (<= 2 productions).  *)
-SessionsA(maxprod, kinds) ==
-  UNION {UNION {{[main |-> m,
-                  inc |-> IF MainOnly(f) THEN <<PlainOf("class")>> ELSE <<>>]
-                 : m \in WithFocus(f, n)}
-                : n \in 1..(IF f.d = "repo" THEN (IF maxprod < 2 THEN maxprod
-                                                  ELSE 2) ELSE maxprod)}
-         : f \in {x \in FocusOf(kinds) : ~IncOnly(x)}}
+(* The session space, as a sequence of disjoint parts (flat comprehensions: *)
+(* TLC's UNION and \cup are quadratic on big sets).                         *)
+(*  A(n) every focus production of the given kinds (every defect kind,      *)
+(*       every valid variant, every repository rejection) at every position *)
+(*       of a main text of n productions, with every choice of defect-free  *)
+(*       context productions at the other positions; sessions with a        *)
+(*       repository rejection are kept short (n <= 2)                       *)
+(*  B    the focus inside an included file (alone, before/after another     *)
+(*       production; the include alone or next to another production)       *)
+(*  C    the focus in the main text after an include that returned normally *)
+CtxTuples(m) ==
+  CASE m = 0 -> {<< >>}
+    [] m = 1 -> {<<c>> : c \in Ctx}
+    [] m = 2 -> {<<c, d>> : c \in Ctx, d \in Ctx}
+    [] m = 3 -> {<<c, d, e>> : c \in Ctx, d \in Ctx, e \in Ctx}
+Insert(t, pos, f) == SubSeq(t, 1, pos - 1) \o <<f>> \o SubSeq(t, pos, Len(t))
 
-MainsB == {<<Inc2>>} \cup {<<c, Inc2>> : c \in Ctx} \cup {<<Inc2, c>> : c \in Ctx}
-IncsB(f) == {<<f>>, <<PlainOf("class"), f>>, <<f, PlainOf("class")>>}
+SessionsA(n, kinds) ==
+  {[main |-> Insert(t, pos, f),
+    inc |-> IF MainOnly(f) THEN <<PlainOf("class")>> ELSE << >>]
+   : f \in {x \in FocusOf(kinds) : ~IncOnly(x) /\ (x.d = "repo" => n <= 2)},
+     pos \in 1..n, t \in CtxTuples(n - 1)}
+
+MainsB == {<<Inc2>>, <<PlainOf("class"), Inc2>>, <<Inc2, PlainOf("instance")>>,
+           <<PlainOf("namespace"), Inc2>>, <<Inc2, PlainOf("qualDecl")>>}
+IncForm(f, j) == CASE j = 1 -> <<f>>
+                   [] j = 2 -> <<PlainOf("class"), f>>
+                   [] j = 3 -> <<f, PlainOf("class")>>
 SessionsB(kinds) ==
-  UNION {IF f.d = "repo" THEN {[main |-> <<Inc2>>, inc |-> <<f>>]}
-         ELSE {[main |-> m, inc |-> i] : m \in MainsB, i \in IncsB(f)}
-         : f \in {x \in FocusOf(kinds) : ~MainOnly(x)}}
+  {[main |-> x[2], inc |-> IncForm(x[1], x[3])]
+   : x \in {y \in {z \in FocusOf(kinds) : ~MainOnly(z)} \X MainsB \X (1..3)
+            : y[1].d = "repo" => (y[2] = <<Inc2>> /\ y[3] = 1)}}
 
 SessionsC(kinds) ==
   {[main |-> <<Inc2, f>>, inc |-> <<PlainOf("class")>>]
    : f \in {x \in FocusOf(kinds) : ~IncOnly(x) /\ ~MainOnly(x)}}
 
-Sessions(maxprod, kinds) ==
-  SessionsA(maxprod, kinds) \cup SessionsB(kinds) \cup SessionsC(kinds)
+SessionParts(maxprod, kinds) ==
+  [i \in 1..(maxprod + 2) |->
+     IF i <= maxprod THEN SessionsA(i, kinds)
+     ELSE IF i = maxprod + 1 THEN SessionsB(kinds) ELSE SessionsC(kinds)]
 
 AllProds(ses) == Rng(ses.main) \cup Rng(ses.inc)
 
@@ -215,7 +222,8 @@ Admissible(ses) ==
 
 (***************************************************************************)
 (* Events (one per compile call, recorded from the real code):             *)
-(*  call    "bad" (the session) | "good" (valid MOF afterwards, same object)*)
+(*  call    "setup" (valid prelude MOF, same object) | "bad" (the session) *)
+(*          | "good" (valid MOF afterwards, same object)                   *)
 (*  ses     the abstract session (+ api, handle chosen by the harness)     *)
 (*  out     "ok" | "hang" | name of the exception type that escaped        *)
 (*  mro     names of the classes in the exception type's MRO               *)
@@ -229,11 +237,11 @@ Admissible(ses) ==
 IsMOFCompileError(e) == "MOFCompileError" \in Rng(e.mro)
 IsOSError(e) == "OSError" \in Rng(e.mro)
 
-Max(S) == IF S = {} THEN 0 ELSE CHOOSE x \in S : \A y \in S : y <= x
+MaxOf(S) == IF S = {} THEN 0 ELSE CHOOSE x \in S : \A y \in S : y <= x
 
 Cands(e) == {i \in DOMAIN e.texts : e.texts[i].fid = e.fileid}
 LineOk(e, i) == e.lineno >= 1 /\ e.lineno <= Len(e.texts[i].lens)
-ColOk(e, i) == e.column >= 0 /\ e.column <= Max(Rng(e.texts[i].lens)) + 1
+ColOk(e, i) == e.column >= 0 /\ e.column <= MaxOf(Rng(e.texts[i].lens)) + 1
 \* stricter reading (line and column denote one character of that line or the
 \* position just behind it); reported as an observation only, see Appendix A
 ColInLine(e, i) == LineOk(e, i) /\ e.column >= 0
@@ -260,8 +268,12 @@ Fails(s, e) ==
              \cup F("ReusableAfterFailure.Result",
                     e.out # "ok" \/ e.digest = e.refdigest)
         ELSE {})
-  \cup F("Trace.Shape", (e.call = "bad" /\ s.calls = 0)
-                        \/ (e.call = "good" /\ s.calls > 0))
+  \cup (IF e.call = "setup"
+        THEN F("Harness.PreludeCompiles", e.out = "ok" \/ ~IsMOFCompileError(e))
+        ELSE {})
+  \cup F("Trace.Shape", (e.call = "setup" /\ s.calls = 0)
+                        \/ (e.call = "bad" /\ s.calls = 1)
+                        \/ (e.call = "good" /\ s.calls = 2))
 
 Apply(s, e) ==
   [failed |-> s.failed \/ (e.call = "bad" /\ e.out # "ok"),
